@@ -401,8 +401,8 @@ lx, rx *` + pname + `
 leq, req bool
 )
 _, _, _, _ = lx, rx, leq, req
-if lp, ok := l.(**` + pname + `); ok { lx, leq = *lp, true } else if lp, ok := l.(*` + pname + `); ok { lx, leq = lp, true } else if lp, ok := l.(` + pname + `); ok { lx, leq = &lp, true }
-if rp, ok := r.(**` + pname + `); ok { rx, req = *rp, true } else if rp, ok := r.(*` + pname + `); ok { rx, req = rp, true } else if rp, ok := r.(` + pname + `); ok { rx, req = &rp, true }
+if lp, ok := l.(**` + pname + `); ok { if lp != nil { lx = *lp }; leq = true } else if lp, ok := l.(*` + pname + `); ok { lx, leq = lp, true } else if lp, ok := l.(` + pname + `); ok { lx, leq = &lp, true }
+if rp, ok := r.(**` + pname + `); ok { if rp != nil { rx = *rp }; req = true } else if rp, ok := r.(*` + pname + `); ok { rx, req = rp, true } else if rp, ok := r.(` + pname + `); ok { rx, req = &rp, true }
 if !leq || !req { return false }
 if lx == nil && rx == nil { return true }
 if (lx == nil && rx != nil) || (lx != nil && rx == nil) { return false }
